@@ -179,6 +179,8 @@ func TestC19(t *testing.T) {
 				var j int
 				if i < c.n-1 && !c.g.Chance(1, 5) {
 					j = i + 1 + c.g.N(c.n-i-1)
+				} else if i == c.n-1 && !c.g.Chance(1, 4) {
+					continue // the last module has no forward targets
 				} else {
 					j = c.g.N(c.n)
 				}
